@@ -31,4 +31,4 @@ for prop in "$@"; do
   echo "$out" | grep -A2 "^VIOLATION" | head -${LINES_SHOWN:-9} | cut -c1-400
   echo "$out" | grep "^SUMMARY\|^INCONCLUSIVE\|BUILD FAILED" | head -3 | cut -c1-250
 done
-git -C /verif checkout -- evidence 2>/dev/null
+git checkout -- evidence 2>/dev/null # (of the checkout this script runs in)
